@@ -1,7 +1,7 @@
 (* StatePure.v — the cache-free reference semantics of one load / dump call
    (computed from the class declarations and the Meta objects only), and the
    decidable predicates that carve the open regions out of the set of
-   histories (F2, F10, F22 for C06; F10, F11, F22 for C07).  No proofs. *)
+   histories (F2, F10, F40 for C06; F10, F11, F40 for C07).  No proofs. *)
 From DW Require Import PyStr StrConv StateModel.
 
 (* ---------------------------------------------------------------- trees *)
@@ -194,7 +194,7 @@ Definition f10_ok (s : sigma) (G : gov) (c : cid) (nested : list cid) : bool :=
 Definition mref_opt_eqb := opt_eqb mref_eqb.
 
 (* BindMeta: before first use, and the Meta object of the class is not shared
-   with another class (F22 / F11 aliasing) *)
+   with another class (F40 / F11 aliasing) *)
 Definition bind_ok (s : sigma) (G : gov) (defined : list cid) (c : cid) : bool :=
   match G c with Some _ => false | None => true end &&
   match cs_meta (st_cls s c) with
@@ -255,7 +255,7 @@ Fixpoint safe_from (s : sigma) (G : gov) (defined : list cid) (h : list op) : bo
   | o :: r => safe_op s G defined o && safe_from (fst (step s o)) (gstep s G o) (dstep defined o) r
   end.
 
-(* a history that stays outside the open regions F2 / F10 / F11 / F22 and binds Meta only before first use *)
+(* a history that stays outside the open regions F2 / F10 / F11 / F40 and binds Meta only before first use *)
 Definition safe_history (h : list op) : bool := safe_from init g0 [] h.
 
 (* ---------------------------------------------------------------- class families (C07) *)
